@@ -33,7 +33,9 @@ TYPE_VALUES = {
 # values that are outside the XSD lexical space of the type (XML Schema part 2) - each must be rejected
 BAD_VALUES = {
     "dateTime": ["yesterday", "2001-13-01T00:00:00Z", "2001-01-01", "2021-02-30T10:00:00Z", "2021-04-31T10:00:00.5Z",
-                 "2021-01-01T25:00:00.5Z", "2021-01-01T10:61:00.123Z"],
+                 "2021-01-01T25:00:00.5Z", "2021-01-01T10:61:00.123Z",
+                 # a well-formed instant followed by something else
+                 "2020-02-03T04:05:06Zulu", "2020-02-03T04:05:06.78nine", "2020-02-03T04:05:06+25:99"],
     "boolean": ["yes", "2", "tru"],
     "nonNegativeInteger": ["-1", "abc", "1.5"],
     "PositiveInteger": ["0", "-1", "abc"],
